@@ -125,6 +125,18 @@ func MinLen(st sem.Stmt, mode int) (int, bool) {
 		if len(st.Ops) == 1 && st.Ops[0].Kind == sem.KReg && sem.RegBits(st.Ops[0].Reg) >= 16 {
 			return p66 + 1, true
 		}
+		// PUSH imm: 6A ib whenever the value lies in -128..127 (valid in both modes); wider values written
+		// in the mode's own width take 68 iw/id. Bit patterns such as 0xff80 and values beyond the mode's
+		// width are left out (what is pushed then depends on the operand size chosen).
+		if st.Mn == "PUSH" && len(st.Ops) == 1 && st.Ops[0].Kind == sem.KImm {
+			v := st.Ops[0].Imm
+			switch {
+			case v >= -128 && v <= 127:
+				return 2, true
+			case v >= -0x8000 && v <= 0x7fff:
+				return 1 + mode/8, true
+			}
+		}
 	}
 	return 0, false
 }
@@ -187,7 +199,7 @@ func checkC18(c InstCase) Verdict {
 	alt := false
 	switch c.St.Mn {
 	case "PUSH", "POP":
-		alt = true // FF /6, 8F /0
+		alt = true // FF /6, 8F /0; 68 iw/id beside 6A ib
 	case "MOV":
 		alt = true // C6/C7 /0 ; 8A/8B with ModR/M+disp
 	default:
@@ -213,6 +225,7 @@ func c18Forms() []form {
 	for _, w := range []string{"16", "32"} {
 		fs = append(fs, form{Mn: "PUSH", Slots: []string{"r" + w}, Class: "stack.r"}, form{Mn: "POP", Slots: []string{"r" + w}, Class: "stack.r"})
 	}
+	fs = append(fs, form{Mn: "PUSH", Slots: []string{"imm"}, Class: "stack.i"})
 	return fs
 }
 
@@ -261,7 +274,7 @@ func c18Mems(size string) []sem.Operand {
 
 var propC18 = &Prop[InstCase]{
 	ID:   "C18",
-	Rule: "ADD/OR/AND/SUB/XOR/CMP x every register of each width and typed memory destinations (every 16-bit shape and several 32-bit ones, without displacement and with displacements on both sides of the disp8 range) x immediates on both sides of -128/127 and the boundary set; MOV accumulator <-> absolute address; MOV reg,imm; PUSH/POP reg; BITS 16/32; alone or right after the same statement with another register (state kept per mnemonic and address); oracle: decodes to the statement (C01's comparison) and length <= reference minimum (prefixes + opcode + minimal ModR/M/SIB/disp + minimal immediate form; equal-length alternatives accepted); non-trivial = at least two legal encodings of different length exist; distinct by (mode, statement)",
+	Rule: "ADD/OR/AND/SUB/XOR/CMP x every register of each width and typed memory destinations (every 16-bit shape and several 32-bit ones, without displacement and with displacements on both sides of the disp8 range) x immediates on both sides of -128/127 and the boundary set; MOV accumulator <-> absolute address; MOV reg,imm; PUSH/POP reg; PUSH imm (6A ib for -128..127, values up to 16 bits); BITS 16/32; alone or right after the same statement with another register (state kept per mnemonic and address); oracle: decodes to the statement (C01's comparison) and length <= reference minimum (prefixes + opcode + minimal ModR/M/SIB/disp + minimal immediate form; equal-length alternatives accepted); non-trivial = at least two legal encodings of different length exist; distinct by (mode, statement)",
 	Gen: func(t *rapid.T) InstCase {
 		mode := rapid.SampledFrom([]int{0, 16, 32}).Draw(t, "mode")
 		if rapid.IntRange(0, 9).Draw(t, "moffs") == 0 {
